@@ -243,10 +243,24 @@ fn entry_alphabet(thorough: bool) -> Vec<AbsEnv> {
 
 // ---------- read side ----------
 
+/// file names are written as &str; U+E000 stands for the byte 0xFF (a name that is not valid UTF-8)
+fn raw(name: &str) -> Vec<u8> {
+    let mut out = Vec::new();
+    for c in name.chars() {
+        if c == '\u{e000}' {
+            out.push(0xff);
+        } else {
+            out.extend_from_slice(c.to_string().as_bytes());
+        }
+    }
+    out
+}
+
 /// reference reader A.4 for one directory listing
 fn ref_read(files: &[(String, Vec<u8>)], scope: &Sc, abs: &mut AbsEnv) {
     for (fname, data) in files {
-        let fb = fname.as_bytes();
+        let fb_owned = raw(fname);
+        let fb = &fb_owned[..];
         // split at the last dot; a leading dot belongs to the name
         let dot = fb.iter().rposition(|c| *c == b'.').filter(|i| *i > 0);
         let (name, beh) = match dot {
@@ -260,7 +274,8 @@ fn ref_read(files: &[(String, Vec<u8>)], scope: &Sc, abs: &mut AbsEnv) {
 }
 
 fn read_side(thorough: bool, rep: &mut Reporter) -> (u64, u64) {
-    let fnames = ["N", "N.append", "N.default", "N.delim", "N.override", "N.prepend", "N.unknown", "N.b.default", ".N", "N.APPEND"];
+    // the last two: a suffix that is not valid UTF-8 (unknown => ignored), a name that is not valid UTF-8 (override)
+    let fnames = ["N", "N.append", "N.default", "N.delim", "N.override", "N.prepend", "N.unknown", "N.b.default", ".N", "N.APPEND", "N.\u{e000}bak", "N\u{e000}"];
     let k = if thorough { 3 } else { 2 };
     // all subsets of <= k file names
     let mut subsets: Vec<Vec<usize>> = vec![vec![]];
@@ -320,7 +335,7 @@ fn read_side(thorough: bool, rep: &mut Reporter) -> (u64, u64) {
                 let mut files = Vec::new();
                 for i in subset {
                     let content = format!("{}:{}", loc.dir(), fnames[*i]).into_bytes();
-                    std::fs::write(d.join(fnames[*i]), &content).unwrap();
+                    std::fs::write(d.join(<std::ffi::OsStr as std::os::unix::ffi::OsStrExt>::from_bytes(&raw(fnames[*i]))), &content).unwrap();
                     files.push((fnames[*i].to_string(), content));
                     desc.push(format!("{}/{}", loc.dir(), fnames[*i]));
                 }
@@ -333,7 +348,7 @@ fn read_side(thorough: bool, rep: &mut Reporter) -> (u64, u64) {
                 Ok(read) => {
                     // names N, N.b, .N
                     let mut probe = abs.clone();
-                    for n in [b"N".to_vec(), b"N.b".to_vec(), b".N".to_vec()] {
+                    for n in [b"N".to_vec(), b"N.b".to_vec(), b".N".to_vec(), b"N\xff".to_vec()] {
                         probe.entry((Sc::Process("none".into()), Beh::Delim, n)).or_insert_with(Vec::new);
                     }
                     // use `probe` only to generate start envs covering all candidate names
